@@ -56,6 +56,42 @@ fn canon_eq(a: &str, b: &str) -> bool {
         })
 }
 
+/// two `{:?}` renderings: everything but the number literals must agree exactly, the numbers to 1e-12 relative (the
+/// JSON text may move a binary64 by one ulp)
+fn debug_eq(a: &str, b: &str) -> bool {
+    fn split(s: &str) -> (String, Vec<f64>) {
+        let (mut shape, mut nums, mut cur) = (String::new(), Vec::new(), String::new());
+        let cs: Vec<char> = s.chars().collect();
+        let mut i = 0;
+        while i < cs.len() {
+            let c = cs[i];
+            let starts = c.is_ascii_digit() || (c == '-' && i + 1 < cs.len() && cs[i + 1].is_ascii_digit() && (i == 0 || !cs[i - 1].is_alphanumeric()));
+            if starts && (i == 0 || !(cs[i - 1].is_alphanumeric() || cs[i - 1] == '_')) {
+                cur.clear();
+                cur.push(c);
+                i += 1;
+                while i < cs.len() && (cs[i].is_ascii_digit() || cs[i] == '.' || cs[i] == 'e' || cs[i] == 'E' || ((cs[i] == '-' || cs[i] == '+') && (cs[i - 1] == 'e' || cs[i - 1] == 'E'))) {
+                    cur.push(cs[i]);
+                    i += 1;
+                }
+                match cur.parse::<f64>() {
+                    Ok(x) => {
+                        nums.push(x);
+                        shape.push('#');
+                    }
+                    Err(_) => shape.push_str(&cur),
+                }
+            } else {
+                shape.push(c);
+                i += 1;
+            }
+        }
+        (shape, nums)
+    }
+    let ((sa, na), (sb, nb)) = (split(a), split(b));
+    sa == sb && na.len() == nb.len() && na.iter().zip(nb.iter()).all(|(x, y)| feq(*x, *y))
+}
+
 pub trait HX {
     type A: Srv + Send + 'static;
     fn configure(cfg: &mut web::ServiceConfig);
@@ -77,6 +113,8 @@ pub trait HX {
     fn tclient_call(c: &mut Self::T, op: &str, bt: u64, t: &[&str]) -> impl std::future::Future<Output = Option<Option<Value>>>;
     fn tclient_state(c: &Self::T) -> &Self::A;
     /// a random order, as the tokens that follow the backtest id in an `INS` line (concurrency run)
+    /// `{:?}` of the HTTP tick body decoded into the service's typed `TickResponse`
+    fn decode_tick_debug(body: &[u8]) -> Option<String>;
     fn rand_ins(r: &mut Rng) -> String;
     fn rand_del(r: &mut Rng) -> String;
     fn conc_syms() -> [&'static str; 2];
@@ -121,6 +159,9 @@ impl HX for U {
     }
     fn tclient_state(c: &Self::T) -> &Self::A {
         c.verif_state()
+    }
+    fn decode_tick_debug(body: &[u8]) -> Option<String> {
+        serde_json::from_slice::<rotala::http::uist::uistv1_server::TickResponse>(body).ok().map(|t| format!("{t:?}"))
     }
     fn rand_ins(r: &mut Rng) -> String {
         let t = r.below(6);
@@ -206,6 +247,9 @@ impl HX for J {
     }
     fn tclient_state(c: &Self::T) -> &Self::A {
         c
+    }
+    fn decode_tick_debug(body: &[u8]) -> Option<String> {
+        serde_json::from_slice::<rotala::http::jura::jurav1_server::TickResponse>(body).ok().map(|t| format!("{t:?}"))
     }
     fn rand_ins(r: &mut Rng) -> String {
         let px = (1 + r.below(12)) as f64 * 0.5;
@@ -437,6 +481,22 @@ async fn run_async<H: HX>(ops: &str, annot: &str, imp: &str) {
                 let h = data.lock().unwrap();
                 let (a, b) = (h.snap(bt).unwrap_or_default(), direct.snap(bt).unwrap_or_default());
                 canon_eq(&a, &b) && h.clock(bt) == direct.clock(bt) && h.last() == direct.last()
+            };
+            // a tick carries orders and fills, whose private fields only `{:?}` shows without going through the derives
+            // under test: the body decoded into the typed response must render like the in-process response
+            let eq = if eq && t[0] == "TICK" && status == 200 {
+                match H::decode_tick_debug(&body) {
+                    Some(d) => {
+                        let same = debug_eq(&d, &direct.last_tick_debug());
+                        if !same {
+                            out.stats.bump("typed_tick_response_differs_from_in_process");
+                        }
+                        same
+                    }
+                    None => false,
+                }
+            } else {
+                eq
             };
             if !eq {
                 out.stats.bump("transport_differs_from_in_process");
